@@ -13,16 +13,39 @@ REQ = ("From Coq Require Import List NArith.\nFrom Delb.Base Require Import PySt
 GRID = [(i, a) for i in pp.INDENTS for a in (False, True)]
 
 
+def cgrid(g):
+    return "[" + "; ".join("(%s, %s)" % (cstr(i), cbool(a)) for i, a in g) + "]"
+
+
 def preamble():
-    g = "[" + "; ".join("(%s, %s)" % (cstr(i), cbool(a)) for i, a in GRID) + "]"
+    """output per grid point: the model string, then 0 if simple_pp gives the same string, else 1 and that string
+    (printing number lists is what costs time in coqc, so nothing is printed twice)"""
     return (REQ + "Import ListNotations.\n"
-            "Definition grid18 : list (str * bool) := %s.\n"
-            "Definition run18 (t : node) : list N :=\n"
-            "  enc_bool (data_style t) ++ enc_str (enc_node (reduce_model t))\n"
-            "  ++ flat_map (fun ia : str * bool => enc_str (pretty (fst ia) (snd ia) t) ++ enc_str (simple_pp (fst ia) (snd ia) 0 t)) grid18.\n"
-            "Definition run18doc (p : list node) (t : node) (e : list node) : list N :=\n"
-            "  flat_map (fun ia : str * bool => enc_str (pretty_doc (fst ia) (snd ia) p t e) ++ enc_str (simple_doc (fst ia) (snd ia) p t e)) grid18.\n"
-            % g)
+            "Fixpoint leqb (a b : list N) : bool := match a, b with [], [] => true | x :: a', y :: b' => (N.eqb x y && leqb a' b')%bool | _, _ => false end.\n"
+            "Definition two (m s : str) : list N := enc_str m ++ (if leqb m s then [0%N] else 1%N :: enc_str s).\n"
+            "Definition run18 (g : list (str * bool)) (t : node) : list N :=\n"
+            "  enc_bool (data_style t) ++ enc_bool (leqb (enc_node (reduce_model t)) (enc_node t))\n"
+            "  ++ flat_map (fun ia : str * bool => two (pretty (fst ia) (snd ia) t) (simple_pp (fst ia) (snd ia) 0 t)) g.\n"
+            "Definition run18doc (g : list (str * bool)) (p : list node) (t : node) (e : list node) : list N :=\n"
+            "  flat_map (fun ia : str * bool => two (pretty_doc (fst ia) (snd ia) p t e) (simple_doc (fst ia) (snd ia) p t e)) g.\n")
+
+
+def dec_two(l, i):
+    n = l[i]
+    m = "".join(chr(c) for c in l[i + 1:i + 1 + n])
+    i += 1 + n
+    if l[i] == 0:
+        return m, m, i + 1
+    n = l[i + 1]
+    return m, "".join(chr(c) for c in l[i + 2:i + 2 + n]), i + 2 + n
+
+
+def dec_pairs(l, i):
+    out = []
+    while i < len(l):
+        m, sp, i = dec_two(l, i)
+        out += [m, sp]
+    return out
 
 
 def classify(finding, case):
@@ -30,11 +53,7 @@ def classify(finding, case):
 
 
 def decode_run(vals):
-    ds = vals[0] == 1
-    n = vals[1]
-    red = vals[2:2 + n]
-    strs = pp.dec_strs(vals[2 + n:])
-    return ds, red, strs
+    return vals[0] == 1, vals[1] == 1, dec_pairs(vals, 2)
 
 
 def check_docs(ctx, xmls, max_sub):
@@ -54,31 +73,32 @@ def check_docs(ctx, xmls, max_sub):
                 t = extract(nodes[idx])
                 if not pp.in_domain(t):
                     continue
+                g = pick_grid(ctx)
                 try:
-                    real = [pp.real_serialize(nodes[idx], i, 0, a) for i, a in GRID]
+                    real = [pp.real_serialize(nodes[idx], i, 0, a) for i, a in g]
                 except Exception as e:  # noqa: BLE001
                     ctx.fail("serialize raised %s: %s" % (type(e).__name__, e), {"xml": xml, "subtree": idx}, classify)
                     continue
-                items.append((kind, xml, idx, t, real))
+                items.append((kind, xml, idx, t, real, g))
             pro = [extract(n) for n in doc.prologue]
             epi = [extract(n) for n in doc.epilogue]
             t = extract(doc.root)
             if pp.in_domain(t) and (pro or epi or ctx.rng.random() < 0.3):
-                real = [pp.real_document(doc, i, 0, a) for i, a in GRID]
-                docitems.append((kind, xml, pro, t, epi, real))
-    terms = ["run18 %s" % cnode(t) for _, _, _, t, _ in items]
-    terms += ["run18doc %s %s %s" % (common.clist(cnode(n) for n in p), cnode(t), common.clist(cnode(n) for n in e))
-              for _, _, p, t, e, _ in docitems]
+                g = pick_grid(ctx)
+                real = [pp.real_document(doc, i, 0, a) for i, a in g]
+                docitems.append((kind, xml, pro, t, epi, real, g))
+    terms = ["run18 %s %s" % (cgrid(g), cnode(t)) for _, _, _, t, _, g in items]
+    terms += ["run18doc %s %s %s %s" % (cgrid(g), common.clist(cnode(n) for n in p), cnode(t),
+                                        common.clist(cnode(n) for n in e)) for _, _, p, t, e, _, g in docitems]
     vals = ctx.coq_eval("c18", preamble(), terms, chunk=20)
-    for (kind, xml, idx, t, real), v in zip(items, vals):
+    for (kind, xml, idx, t, real, g), v in zip(items, vals):
         case = {"xml": xml, "subtree": idx, "tree": t}
         if v is None:
             ctx.mismatch("pretty model evaluation", "coqc failed on the case file")
             continue
-        ds, red, strs = decode_run(v)
-        reduced = red == enc_node(t)
-        ctx.count(len(GRID), "%s/%s/%s" % (kind, "root" if idx == 0 else "subtree", "data-style" if ds else "other"))
-        for gi, (ind, align) in enumerate(GRID):
+        ds, reduced, strs = decode_run(v)
+        ctx.count(len(g), "%s/%s/%s" % (kind, "root" if idx == 0 else "subtree", "data-style" if ds else "other"))
+        for gi, (ind, align) in enumerate(g):
             model, simple = strs[2 * gi], strs[2 * gi + 1]
             if model != real[gi]:
                 ctx.mismatch("pretty (Ws/Pretty.v) vs serialize(FormatOptions(indentation, width=0, align_attributes))",
@@ -91,34 +111,44 @@ def check_docs(ctx, xmls, max_sub):
                     ctx.fail("indented output differs from the straightforward recursive printer",
                              dict(case, indentation=ind, align=align, impl=real[gi], simple_pp=simple), classify)
         if ds and reduced:
-            ctx.sample({"tree": t, "indentation": GRID[4][0], "align": GRID[4][1], "output": real[4]}, limit=3)
-    for (kind, xml, p, t, e, real), v in zip(docitems, vals[len(items):]):
+            ctx.sample({"tree": t, "indentation": g[0][0], "align": g[0][1], "output": real[0]}, limit=3)
+    for (kind, xml, p, t, e, real, g), v in zip(docitems, vals[len(items):]):
         case = {"xml": xml, "document": True, "tree": t}
         if v is None:
             ctx.mismatch("pretty_doc model evaluation", "coqc failed on the case file")
             continue
-        strs = pp.dec_strs(v)
-        ctx.count(len(GRID), "%s/document" % kind)
-        for gi, (ind, align) in enumerate(GRID):
+        strs = dec_pairs(v, 0)
+        ctx.count(len(g), "%s/document" % kind)
+        for gi, (ind, align) in enumerate(g):
             model, simple = strs[2 * gi], strs[2 * gi + 1]
             if model != real[gi]:
                 ctx.mismatch("pretty_doc (Ws/Pretty.v) vs Document.write(format_options=...)",
                              {"case": case, "indentation": ind, "align": align, "impl": real[gi], "model": model})
     # data_style and reducedness of the document roots decide whether the document-level demand applies
     droots = {}
-    for (kind, xml, idx, t, real), v in zip(items, vals):
+    for (kind, xml, idx, t, real, g), v in zip(items, vals):
         if idx == 0 and v is not None:
             ds, red, _ = decode_run(v)
-            droots[xml] = ds and red == enc_node(t)
-    for (kind, xml, p, t, e, real), v in zip(docitems, vals[len(items):]):
+            droots[xml] = ds and red
+    for (kind, xml, p, t, e, real, g), v in zip(docitems, vals[len(items):]):
         if v is None or not droots.get(xml):
             continue
-        strs = pp.dec_strs(v)
-        for gi, (ind, align) in enumerate(GRID):
+        strs = dec_pairs(v, 0)
+        for gi, (ind, align) in enumerate(g):
             if ind != "" and real[gi] != strs[2 * gi + 1]:
                 ctx.fail("indented document differs from the straightforward recursive printer",
                          {"xml": xml, "document": True, "indentation": ind, "align": align, "impl": real[gi],
                           "simple_doc": strs[2 * gi + 1]}, classify)
+
+
+def pick_grid(ctx):
+    """quick tier: 4 of the 10 option sets per tree (always one aligned and one not), thorough: all"""
+    if ctx.tier != "quick":
+        return list(GRID)
+    g = ctx.rng.sample(GRID, 4)
+    if all(a for _, a in g) or not any(a for _, a in g):
+        g[0] = (g[0][0], not g[0][1])
+    return g
 
 
 def gen_cases(ctx, n_data, n_mixed):
@@ -155,13 +185,13 @@ def run(ctx, args):
             check_docs(ctx, [("replay", case["xml"])], max_sub=50)
         return ctx.finish("replay of " + args.replay)
     quick = ctx.tier == "quick"
-    xmls = [("fixed", x) for x in FIXED] + gen_cases(ctx, 110 if quick else 2500, 45 if quick else 800)
+    xmls = [("fixed", x) for x in FIXED] + gen_cases(ctx, 150 if quick else 2500, 50 if quick else 800)
     check_docs(ctx, xmls, max_sub=3 if quick else 8)
     return ctx.finish(
         rule="documents: fixed small cases + random conventionally laid out (data-style) documents of depth <= 3 with "
              "elements, comments, PIs, 0-3 attributes, xml:space directives, optional prologue/epilogue, + random "
              "mixed-content documents; parsed with reduce_whitespace; serialized from the root, from sampled sub-trees "
-             "and as a document with indentation in {'', ' ', '  ', '\\t', ' \\t'} x align_attributes in {F, T}, width 0. "
+             "and as a document with indentation in {'', ' ', '  ', '\\t', ' \\t'} x align_attributes in {F, T}, width 0 (quick tier: 4 of the 10 option sets per tree, drawn at random). "
              "One evaluation = one (tree, options) output compared byte for byte with the model; the property demand "
              "(output = simple_pp) applies to data-style reduced trees with a non-empty indentation. "
              "Non-trivial = such a tree of depth >= 1; distinct by (tree, options).")
